@@ -160,6 +160,14 @@ def run_impl(case):
         out["cm"][name] = _canon(getattr(cm, name)(), ())
     for name in CI_NAMES:
         out["cm"][name] = [_canon(getattr(cm, name)(alpha=a), (2,)) for a in alphas]
+    # bound methods taken from one matrix stay bound to it: the same names are looked up on ANOTHER matrix before they are called
+    held = {name: getattr(cm, name) for name in Q_NAMES + R_NAMES + list(CM_EXTRA) + CI_NAMES}
+    other = ConfusionMatrix(matrix=(arr[..., ::-1, :] * 2 + 1).copy(), binary=True)
+    for name in held:
+        getattr(other, name)
+    held_bad = [name for name in Q_NAMES + R_NAMES + list(CM_EXTRA) if _canon(held[name](), ()) != out["cm"][name]]
+    held_bad += [name for name in CI_NAMES if _canon(held[name](alpha=alphas[0]), (2,)) != out["cm"][name][0]]
+    out["held_methods_bad"] = held_bad
     out["default_alpha"] = _canon(metrics.tpr_ci(arr), (2,))["vals"] == _canon(metrics.tpr_ci(arr, 0.05), (2,))["vals"]
     out["unchanged"] = bool(np.array_equal(arr, before))
     # the same kind of integer matrix held in a narrow integer dtype, cells up to the top of the dtype's range (sums of
@@ -452,6 +460,9 @@ def oracle(case, res):
     r = res["ok"]
     _check_path(case, r["metrics"], "metrics", fails)
     _check_path(case, r["cm"], "cm", fails)
+    if r.get("held_methods_bad"):
+        fails.append(("C04/history/held-bound-method", f"ConfusionMatrix methods {r['held_methods_bad'][:6]} taken from one object answer differently "
+                      "after the same names were looked up on another ConfusionMatrix"))
     for row in r.get("narrow_matrix") or []:
         if row["promoting"]:
             fails.append(("C04/narrow-int-matrix/selections-and-totals", f"[{row['dtype']} matrix {row['matrix']}...] {row['promoting']} differ from the values "
